@@ -23,9 +23,9 @@ namespace {
 
 struct TypeEntry { refv::Type type; Typification typif; std::string name; };
 
-std::vector<TypeEntry> make_types(int maxNodes) {
+std::vector<TypeEntry> make_types(int maxNodes, int maxArity = 2) {
   std::vector<TypeEntry> out;
-  for (const auto& t : refv::enumerate_types(maxNodes, 2, { "X1", "Z" })) out.push_back(TypeEntry{ t, refv::to_typification(t), refv::str(t) });
+  for (const auto& t : refv::enumerate_types(maxNodes, maxArity, { "X1", "Z" })) out.push_back(TypeEntry{ t, refv::to_typification(t), refv::str(t) });
   return out;
 }
 
@@ -205,12 +205,15 @@ int main(int argc, char** argv) {
   // round trips: <= 6 nodes (the smallest tuple with a set-of-tuples component followed by another component, B(X1*X1)*X1, has 6);
   // raw malformed tables: <= 5 nodes (cost is linear in the number of typifications); deviations of valid tables: 5 (quick) / 6 (thorough)
   const int maxNodes = static_cast<int>(opt.num("nodes", opt.mode == "roundtrip" ? 6 : 5));
-  const auto types = make_types(maxNodes);
-  const auto mutTypes = make_types(static_cast<int>(opt.num("mutnodes", opt.thorough() ? 6 : 5)));
+  // round trips and single deviations also cover 3-ary tuples (a set-valued component followed by TWO more components spreads a
+  // tuple over several rows in a way no pair does); raw malformed tables stay at arity 2 (cost is linear in the number of types)
+  const int arity = static_cast<int>(opt.num("arity", 3));
+  const auto types = make_types(maxNodes, opt.mode == "roundtrip" ? arity : 2);
+  const auto mutTypes = make_types(static_cast<int>(opt.num("mutnodes", opt.thorough() ? 6 : 5)), arity);
   if (opt.mode == "roundtrip") {
     const size_t cap = static_cast<size_t>(opt.num("cap", opt.thorough() ? 65536 : 4096));
     res.rep = run_sharded(opt, "roundtrip", [&](Ctx& c) { run_roundtrip(c, types, cap); }, &ri);
-    res.alphabet = std::to_string(types.size()) + " typifications (<= " + std::to_string(maxNodes) + " nodes, arity 2, bases X1 and Z); element ids {1,2}";
+    res.alphabet = std::to_string(types.size()) + " typifications (<= " + std::to_string(maxNodes) + " nodes, arity <= " + std::to_string(arity) + ", bases X1 and Z); element ids {1,2}";
     res.completed_bound = "all compatible values over {1,2}; a set level with more than " + std::to_string(cap) + " values is cut to the first and last " + std::to_string(cap / 2) + " in size-then-lexicographic order (first " + std::to_string(cap) + " when the element universe exceeds 64)";
     res.rule = "case = (typification, value); each value packed from its enumerated and from its alternative (lazy Boolean/Decartian, reversed, duplicated) representation, unpacked through both Unpack entry points; compared by model value, by the library's ==, and deep compatibility; non-trivial = contains an empty set below the top level, is a tuple, or has >= 2 elements";
   } else if (opt.mode == "malformed") {
